@@ -229,6 +229,15 @@ let c12 lineno (f : string array) =
     verdict lineno m (if bool_of_field f.(8) then [bytes_of_hex "6d616c666f726d65642d73747265616d2d6163636570746564"] else [])
   | _ -> hist lineno f
 
+(* c16 X name mode bases host path lbucket lkey same rbuckets rkeys desc *)
+let c16 lineno (f : string array) =
+  let bases = List.map bytes_of_hex (split_on ',' f.(4)) in
+  let mode = (match f.(3) with "none" -> M.HostNone | "host" -> M.HostBucket | _ -> M.HostBases bases) in
+  let host = bytes_of_hex f.(5) and path = bytes_of_hex f.(6) and lb = bytes_of_hex f.(7) and lk = bytes_of_hex f.(8) in
+  let same = bool_of_field f.(9) in
+  let rb = List.map bytes_of_hex (split_on ',' f.(10)) and rk = List.map bytes_of_hex (split_on ',' f.(11)) in
+  verdict lineno (M.c16_model mode host path lb lk rb rk) (M.c16_spec lb lk same rb rk)
+
 let () =
   let lineno = ref 0 in
   (try
@@ -240,6 +249,7 @@ let () =
        | "c11" -> c11 !lineno f
        | "c17" -> c17 !lineno f
        | "c12" -> c12 !lineno f
+       | "c16" -> c16 !lineno f
        | "c01" | "c02" | "c03" | "c04" | "c05" | "c06" | "c08" | "c10" | "c13" | "c14" | "c15" -> hist !lineno f
        | "#" -> print_string "OK\n"
        | k -> failwith ("unknown case kind " ^ k))
